@@ -64,6 +64,10 @@ type c14Case struct {
 	// Pad, when non-zero, adds an element with that many bytes of text (half of it hard to
 	// compress) to the document before the URL is built
 	Pad int `json:"document_padding_bytes,omitempty"`
+	// Bind: the provider's IdentityProviderSSOBinding / IdentityProviderSLOBinding settings (what
+	// the IdP's metadata advertises): 0 unset, 1 both HTTP-POST, 2 both HTTP-Redirect. The caller
+	// chose the redirect builders; what they return does not depend on these
+	Bind int `json:"idp_binding_settings,omitempty"`
 }
 
 // c14Pads: documents from 1 kB to 300 kB (DEFLATE window and stored-block sizes, base64 groups)
@@ -102,6 +106,12 @@ func c14SP(c c14Case) (*saml2.SAMLServiceProvider, string) {
 	sp.IdentityProviderSLOURL = c14URLs[c.URL]
 	sp.SignAuthnRequests = c.Sign
 	sp.SignAuthnRequestsAlgorithm = c14Algs[c.Alg]
+	switch c.Bind {
+	case 1:
+		sp.IdentityProviderSSOBinding, sp.IdentityProviderSLOBinding = saml2.BindingHttpPost, saml2.BindingHttpPost
+	case 2:
+		sp.IdentityProviderSSOBinding, sp.IdentityProviderSLOBinding = saml2.BindingHttpRedirect, saml2.BindingHttpRedirect
+	}
 	signer := "KS"
 	switch c14Keys[c.Keys] {
 	case "setter":
@@ -450,6 +460,19 @@ func c14Run(r *mc.Run) {
 		}
 	}
 	r.Set("large_document_cases", nPad)
+	for fn := range c14Funcs {
+		for bind := 1; bind <= 2; bind++ {
+			for _, sign := range []bool{false, true} {
+				for _, keys := range []int{0, 3} {
+					for doc := 0; doc < 2; doc++ {
+						for _, relay := range []int{0, 1} {
+							cases = append(cases, c14Case{Func: fn, Relay: relay, Doc: doc, URL: (fn + doc) % len(c14URLs), Sign: sign, Keys: keys, Bind: bind})
+						}
+					}
+				}
+			}
+		}
+	}
 	// relay states assembled from fragments: every sequence of 2 (quick) / 2-3 (thorough), through
 	// the two signing redirect builders
 	maxF := 2
